@@ -457,6 +457,60 @@ fn ugly(toks: &[crate::grammar::GTok]) -> Vec<String> {
     out
 }
 
+/// C04: disabled regions whose boundaries sit at statement-level positions (before a marked token or after
+/// then / do / else / of / begin / `:`): no such placement may make the formatter crash or hang
+fn c04_regions(g: &Arc<Grammar>, d: usize, cfgs: &[Cfg]) -> Box<dyn Family> {
+    pf(
+        "c04regions",
+        g,
+        d,
+        cfgs,
+        Box::new(move |_g, toks, c, ctx| {
+            use crate::grammar::{M_B, M_C, M_D, M_K, M_O, M_S};
+            let l1 = crate::layout::base_gaps(toks, crate::layout::Base::L1);
+            let n = toks.len();
+            let mut pos: Vec<usize> = (0..n)
+                .filter(|&i| {
+                    toks[i].marks & (M_S | M_K | M_B | M_O | M_C | M_D) != 0
+                        || (i > 0 && matches!(toks[i - 1].text.as_str(), "then" | "do" | "else" | "of" | "begin" | ":" | ";"))
+                })
+                .collect();
+            pos.push(n);
+            let mut first = true;
+            for (a, &i) in pos.iter().enumerate() {
+                for &j in &pos[a..] {
+                    let mut x = String::new();
+                    for k in 0..n {
+                        if k == i {
+                            x.push_str("\n// pasfmt off\n");
+                        } else if k == j && j != i {
+                            x.push_str("\n// pasfmt on\n");
+                        } else if k > 0 {
+                            x.push_str(&l1[k]);
+                        }
+                        x.push_str(&toks[k].text);
+                    }
+                    if i == n {
+                        x.push_str("\n// pasfmt off\n");
+                    }
+                    if j == i && i < n {
+                        // an empty region right here: off immediately followed by on
+                        x = x.replacen("\n// pasfmt off\n", "\n// pasfmt off\n// pasfmt on\n", 1);
+                    }
+                    if !first {
+                        ctx.sub_eval();
+                    }
+                    first = false;
+                    let out = ctx.fmt(c, &x);
+                    if out != x {
+                        ctx.nontrivial();
+                    }
+                }
+            }
+        }),
+    )
+}
+
 fn c07_regions(g: &Arc<Grammar>, d: usize, cfgs: &[Cfg], all_spellings: bool) -> Box<dyn Family> {
     pf(
         "c07regions",
@@ -627,7 +681,8 @@ fn c07_regions(g: &Arc<Grammar>, d: usize, cfgs: &[Cfg], all_spellings: bool) ->
     )
 }
 
-const ASM_LINES: [&str; 23] = [
+const ASM_LINES: [&str; 25] = [
+    "mov   {$ifdef CPUX64}  rax  {$else}  eax  {$endif},   1", "add  eax ,{$IFDEF A} 1 {$ENDIF}  +  2",
     "{$IFDEF X} mov   a,b {$ENDIF}", "mov eax, {$ifdef A} [1] {$else} 2 {$endif}", "{$IFDEF X}", "{$R+}  nop", "{pasfmt off} mov  a ,b",
     "mov  a {pasfmt on}  ,   ebx", "{pasfmt off}  mov   a,b {pasfmt on}  ,  c", "(* PasFmt On *)   mov   esi,    edi",
     "mov eax, 1", "@@l:", "@l: ret", "MOV  EAX ,[EBX+4]", "db 'a', \"b\", 0FFh, 101b", "nop; nop", "// c",
@@ -1275,6 +1330,7 @@ pub fn families(check: &str, tier: &str) -> Vec<Box<dyn Family>> {
                     tf("c04passes", Skeletons { n: 6 }, &one, Box::new(|x, c, ctx| o::c04_passes(x, c, ctx))),
                     tf("c04cursors", soup(2, GAPS3, &["%", "begin % end"]), &one, or_c04_cursors()),
                     Box::new(ScalingFamily { sizes: vec![1, 2, 4, 8, 16, 32, 64], cfgs: vec![cfg::DEFAULT, C_QUICK[1]] }),
+                    c04_regions(&g(2), 2, &C_QUICK[..1]),
                 ]
             } else {
                 vec![
@@ -1296,6 +1352,8 @@ pub fn families(check: &str, tier: &str) -> Vec<Box<dyn Family>> {
                         }
                     }),
                     Box::new(ScalingFamily { sizes: vec![1, 2, 4, 8, 16, 32, 64, 128, 256], cfgs: C_QUICK[..3].to_vec() }),
+                    c04_regions(&g(2), 2, &C_QUICK[..3]),
+                    c04_regions(&g(3), 3, &C_QUICK[..1]),
                 ]
             }
         }
@@ -1433,6 +1491,7 @@ pub fn families(check: &str, tier: &str) -> Vec<Box<dyn Family>> {
                     tf("c08", soup(2, GAPS5, CONTEXTS), &C_QUICK, or_c08(false)),
                     tf("c08", Chars { n: 3 }, &C_QUICK[..2], or_c08(false)),
                     prog_variants("c08eof", &g(2), 2, &C_QUICK, vo_base, f_c08_eof),
+                    prog_variants("c08eof", &g(1), 1, &C_QUICK[..3], vo_cd, f_c08_eof),
                     seed_texts("c08eof", &wf_seeds(), &C_QUICK, f_c08_eof),
                     tf("c08", lit_texts(2), &C_QUICK[..3], or_c08(false)),
                     tf("c08", soup(2, GAPS8, &["%", "begin % end"]), &C_QUICK[..3], or_c08(false)),
